@@ -69,6 +69,9 @@ def probes():
     P.append(("escape_static", "E0515", 'fn f() -> &\'static String { let c = mk(); c.peek("a").unwrap() }\nfn main() {}'))
     P.append(("escape_iter", "E0515", "fn f() -> lru_mem::Iter<'static, String, String> { let c = mk(); c.iter() }\nfn main() {}"))
     P.append(("smuggle_mutate", "E0521", 'fn main() { let mut c = mk(); let mut out: Option<&mut String> = None; let _ = c.mutate("a", |v| { out = Some(v); }); }'))
+    P.append(("smuggle_retain", "E0521", 'fn main() { let mut c = mk(); let mut keep: Vec<&String> = Vec::new(); c.retain(|k, _| { keep.push(k); false }); let _ = keep.len(); }'))
+    P.append(("smuggle_retain_value", "E0521", 'fn main() { let mut c = mk(); let mut keep: Option<&String> = None; c.retain(|_, v| { keep = Some(v); true }); c.clear(); let _ = keep.is_some(); }'))
+    P.append(("retain_ok", "ok", 'fn main() { let mut c = mk(); let mut n = 0; c.retain(|k, v| { n += k.len() + v.len(); n % 2 == 0 }); }'))
     P.append(("move_while_iter", "E0505", "fn main() { let c = mk(); let it = c.iter(); let d = c; let _ = it.count(); }"))
     P.append(("insert_while_ref", "E0499", 'fn main() { let mut c = mk(); let r = c.get("a"); c.insert("x".to_owned(), "y".to_owned()).unwrap(); let _ = r.is_some(); }'))
     P.append(("thread_send_ok", "ok", "fn main() { let c = mk(); std::thread::spawn(move || { let _ = c.len(); }).join().unwrap(); }"))
